@@ -1,10 +1,20 @@
 #!/bin/bash
-# run_seed.sh <seed-name> <property> [tier]: applies a seeded patch to /repo, runs the check, reverts.
+# run_seed.sh <seed-name> <property> [tier]
+# Runs a check against a seeded defect. Default: apply the patch to /repo, run, revert (the
+# procedure of record). With SEED_COPY=1 the patch is applied to a scratch copy of /repo's
+# HEAD instead (VERIF_REPO), so that /repo stays free for other runs.
 cd /verif
 name=$1; prop=$2; tier=${3:-quick}
-git -C /repo apply /verif/seeded/$name/patch.diff || { echo "patch does not apply"; exit 3; }
-./check $prop $tier > /tmp/seedrun-$name.out 2>&1
-code=$?
-git -C /repo checkout -- .
+if [ -n "${SEED_COPY:-}" ]; then
+  copy=/tmp/seedrepo-$name; rm -rf $copy; mkdir -p $copy
+  git -C /repo archive HEAD | tar -x -C $copy
+  (cd $copy && git init -q . && git apply /verif/seeded/$name/patch.diff) || { echo "patch does not apply"; exit 3; }
+  VERIF_REPO=$copy ./check $prop $tier > /tmp/seedrun-$name.out 2>&1; code=$?
+  rm -rf $copy
+else
+  git -C /repo apply /verif/seeded/$name/patch.diff || { echo "patch does not apply"; exit 3; }
+  ./check $prop $tier > /tmp/seedrun-$name.out 2>&1; code=$?
+  git -C /repo checkout -- .
+fi
 echo "seed $name: check $prop exit=$code"
 grep -m3 "VIOLATION\|key=" /tmp/seedrun-$name.out
